@@ -123,9 +123,11 @@ Definition typed (h : list block) (tv : tval) : Prop :=
   | VPtr a => exists b, nth_error h a = Some b /\ tag_ok (fst tv) (b_tag b) = true
   end.
 
+(* a live block has at least one handle and its count is the number of handles; a freed block
+   and an address never allocated have none *)
 Definition rc_exact (R : list tval) (h : list block) : Prop :=
   forall a, match nth_error h a with
-            | Some b => if b_freed b then occ a R = 0 else b_rc b = N.of_nat (occ a R)
+            | Some b => if b_freed b then occ a R = 0 else b_rc b = N.of_nat (occ a R) /\ 0 < occ a R
             | None => occ a R = 0
             end.
 
@@ -180,7 +182,7 @@ Lemma ref_live : forall R h k a, rc_exact R h -> In (k, VPtr a) R ->
 Proof.
   intros R h k a HR HI. pose proof (in_occ_pos _ _ _ HI) as P. specialize (HR a).
   destruct (nth_error h a) as [b|]; [|lia].
-  destruct (b_freed b) eqn:F; [lia|]. exists b. auto.
+  destruct (b_freed b) eqn:F; [lia|]. exists b. destruct HR. auto.
 Qed.
 
 (* heap_refs after an update / an allocation *)
@@ -243,7 +245,7 @@ Lemma inv_h_upd : forall E E' h a b b' dm dp,
   (forall a0, occ a0 (E' ++ b_kids b') + (if Nat.eqb a0 a then dm else 0)
               = occ a0 (E ++ b_kids b) + (if Nat.eqb a0 a then dp else 0)) ->
   (if b_freed b' then (b_rc b + N.of_nat dp = N.of_nat dm)%N
-   else (b_rc b' + N.of_nat dm = b_rc b + N.of_nat dp)%N) ->
+   else (b_rc b' + N.of_nat dm = b_rc b + N.of_nat dp)%N /\ (1 <= b_rc b')%N) ->
   Forall (typed h) (E' ++ b_kids b') ->
   inv_h E' (upd a b' h).
 Proof.
@@ -1669,7 +1671,7 @@ Definition all_handles (st : hstate) : list tval := root_vals (roots st) ++ heap
 Definition rc_inv (st : hstate) : Prop :=
   forall a, match nth_error (heap st) a with
             | Some b => if b_freed b then occ a (all_handles st) = 0
-                        else b_rc b = N.of_nat (occ a (all_handles st))
+                        else b_rc b = N.of_nat (occ a (all_handles st)) /\ 0 < occ a (all_handles st)
             | None => occ a (all_handles st) = 0
             end.
 
